@@ -408,6 +408,19 @@ func runPropose(t *testing.T, in *ProposeIn) result {
 	if blinded && in.Auction == "res" {
 		res.counts = append(res.counts, "blinded-with-auction-result")
 		res.nontrivial = true
+		cands := in.Providers
+		if len(cands) == 0 || in.UnblindAll {
+			cands = in.AllProviders
+		}
+		can := 0
+		for _, p := range cands {
+			if p.Unblinds {
+				can++
+			}
+		}
+		if len(cands) > 0 && can == 0 {
+			res.counts = append(res.counts, "selected-relays-cannot-unblind")
+		}
 	}
 	if in.Proposal == nil {
 		res.counts = append(res.counts, "proposal-error")
@@ -463,6 +476,17 @@ func genPropose(r *Rand) *ProposeIn {
 		for _, p := range all {
 			if r.Chance(1, 2) {
 				in.Providers = append(in.Providers, p)
+			}
+		}
+		// family: none of the winning relays can unblind although other relays can
+		if len(in.Providers) > 0 && len(in.Providers) < len(all) && r.Chance(1, 3) {
+			win := map[uint64]bool{}
+			for i := range in.Providers {
+				in.Providers[i].Unblinds = false
+				win[in.Providers[i].ID] = true
+			}
+			for i := range all {
+				all[i].Unblinds = !win[all[i].ID]
 			}
 		}
 	}
